@@ -23,14 +23,21 @@ def timing_chart(rng, dm):
         d = rng.randint(5, 400)
         form = rng.choice(['%dms' % d, '%dms' % d, '%d' % d, '%.3fs' % (d / 1000.0)])
         sid = 'id%d' % i if rng.random() < 0.6 else None
-        sends.append({'ev': 'd%d' % i, 'delay_ms': d, 'id': sid, 'form': form})
-        L.append('   <send event="d%d" delay="%s"%s/>' % (i, form, (' id="%s"' % sid) if sid else ''))
+        # delayed sends to the session's own internal queue arrive from the timer thread as well
+        tgt = '#_internal' if rng.random() < 0.25 else None
+        sends.append({'ev': 'd%d' % i, 'delay_ms': d, 'id': sid, 'form': form, 'target': tgt})
+        L.append('   <send event="d%d" delay="%s"%s%s/>' % (i, form, (' id="%s"' % sid) if sid else '', (' target="%s"' % tgt) if tgt else ''))
     # cancel some of the later ones right away (completed long before they are due)
     for s in sends:
         if s['id'] and s['delay_ms'] > 150 and rng.random() < 0.4:
             cancels.append(s['id']); L.append('   <cancel sendid="%s"/>' % s['id'])
-    L += ['  </onentry>', '  <transition event="d"/>', ' </state>', '</scxml>']
-    return '\n'.join(L), sends, cancels
+    # delayed sends that cannot be dispatched when they are due (no parent session, no such invocation): error.communication, once each
+    nbad = 0
+    if rng.random() < 0.4:
+        for tgt in rng.sample(['#_parent', '#_nosuchinvoke', '#_scxml_nosuchsession'], rng.randint(1, 2)):
+            nbad += 1; L.append('   <send event="undeliverable%d" delay="%dms" target="%s"/>' % (nbad, rng.randint(5, 200), tgt))
+    L += ['  </onentry>', '  <transition event="d"/>', '  <transition event="error.communication"><log label="ERRCOMM"/></transition>', ' </state>', '</scxml>']
+    return '\n'.join(L), sends, cancels, nbad
 
 
 def check_timing(recs, sends, cancels):
@@ -86,16 +93,18 @@ SCRIPTS = {
 def run_timing(job):
     flavour, seed, dm, engine, outdir = job
     rng = random.Random(seed)
-    xml, sends, cancels = timing_chart(rng, dm)
+    xml, sends, cancels, nbad = timing_chart(rng, dm)
     f = os.path.join(outdir, 't%d.scxml' % seed); open(f, 'w').write(xml)
-    r = thr.run_with_stacks(flavour, 'timers', f, timeout=40, seed=seed, engine=engine, quiet=700, **{'yield': rng.choice([0, 100, 400])})
+    r = thr.run_with_stacks(flavour, 'timers', f, timeout=40, seed=seed, engine=engine, quiet=700, block=rng.choice([20, 20, 3000]), **{'yield': rng.choice([0, 100, 400])})
     rec = {'job': list(job[:4]), 'bad': [], 'deliveries': 0, 'xml': xml}
     if r['timeout']:
         rec['bad'].append(('hang', {'stacks': [s[-3500:] for s in r.get('stacks', [])]})); return rec
     if r['rc'] != 0: rec['bad'].append(('crash:' + (common.sanitizer_summary(r['err']) or 'rc=%s' % r['rc'])[:110], {'stderr': r['err'][-3000:]})); return rec
     recs = thr.records(r['out'])
     bad, n = check_timing(recs, sends, cancels)
-    rec['bad'] = bad; rec['deliveries'] = n
+    errs = sum(1 for x in recs if x[3] == 'E' and x[4].split(' ')[1] == 'error.communication')
+    if errs != nbad: bad.append(('undeliverable-delayed-send:error.communication-%d-times-for-%d-sends' % (errs, nbad), {'undeliverable_sends': nbad, 'error_events': errs}))
+    rec['bad'] = bad; rec['deliveries'] = n + errs
     if flavour == 'tsan':
         att, un = thr.tsan_reports(r['err'], ANCHORS)
         for sig, c in att.items(): rec['bad'].append(('tsan:' + sig[:150], {'count': c, 'report': r['err'][:3500]}))
@@ -165,7 +174,7 @@ def main(tier, replay):
     import shutil
     shutil.rmtree(outdir, ignore_errors=True)
     chk.add('deliveries_checked', deliveries); chk.add('forced_windows_reached', dict(reached)); chk.add('script_outcomes', dict(outcomes)); chk.add('distinct_interleaving_signatures', len(sigs))
-    chk.rule = ('timing charts: 4-14 delayed sends (5-400 ms, ms/s/unit-less forms, ids) and cancels, run on plain/tsan/asan builds, both engines; not-early (2 ms) and exactly-once are hard checks, order/cancel rules use a 50 ms margin. '
+    chk.rule = ('timing charts: 4-14 delayed sends (5-400 ms, ms/s/unit-less forms, ids, a quarter of them to #_internal, some to targets that do not exist) and cancels, stepper polling (20 ms) or really blocking (3 s) in step(), run on plain/tsan/asan builds, both engines; not-early (2 ms) and exactly-once are hard checks, order/cancel rules use a 50 ms margin. '
                 'forced-window scripts (4) park the timer thread at deq.timer.entry / deq.timer.unlocked while <cancel> or destruction runs. distinct_nontrivial = runs without violation')
     chk.assumptions = ['lateness is never a violation', 'a hang is reported with two gdb stack samples; forced scripts that never reach their window make the run inconclusive']
     chk.min_distinct = 10
